@@ -116,6 +116,23 @@ def run(ctx):
     jobs.append(job("errhandling", eh, ["--triples", "nans"], "c09-eh"))
     for k in range(4):
         jobs.append(job("errhandling", eh, ["--triples", "cube0", "1", str(k), "4"], "c09-eh"))
+    # 8. nexttoward(half, long double) - the long double-direction form of nextafter: all 2^16 `from` x a direction alphabet of long
+    #    doubles (absolute: every format boundary of binary16/32/64 and x87 extended, each +-1 long double ulp, +-0, +-inf, NaNs;
+    #    relative to `from`: its neighbours in long double, double and float precision, the adjacent halves, midpoints, -v, 2v, v/2),
+    #    and all 2^16 `from` x half-valued directions (alphabet 1; thorough: all 2^16). Default, error-handling and sanitizer builds.
+    for lo, hi in ranges(4):
+        jobs.append(job("nexttoward", fast, ["--nexttoward", "dirs", str(lo), str(hi)], "c09"))
+    for k in range(2):
+        jobs.append(job("nexttoward", fast, ["--nexttoward", "halves", "alpha1", str(k), "2"], "c09"))
+    for lo, hi in ranges(4):
+        jobs.append(job("errhandling", eh, ["--nexttoward", "dirs", str(lo), str(hi)], "c09-eh"))
+    for k in range(2):
+        jobs.append(job("errhandling", eh, ["--nexttoward", "halves", "alpha1", str(k), "2"], "c09-eh"))
+    for lo, hi in ranges(2):
+        jobs.append(job("sanitizer", asan, ["--noref", "--nexttoward", "dirs", str(lo), str(hi)], "c09-asan"))
+    if not quick:
+        for k in range(64):
+            jobs.append(job("nexttoward-halves-full", fast, ["--nexttoward", "halves", "full", str(k), "64"], "c09"))
     # 6b. three-argument hypot: alphabet-0 cube with integer verdict + MPFR on every triple; derived family (z around 2^-k max(|x|,|y|),
     #     k = 10..20, three positions) over all alphabet-1 pairs; all exact-tie pairs of sqrt(x^2+y^2) x tiny z
     for k in range(16):
@@ -143,7 +160,7 @@ def run(ctx):
     # samples: ctx keeps the first 12 it sees (completion order); show one or two of every kind of case instead
     picked = []
     for prefix, n in (("exp(", 1), ("tgamma(", 2), ("sincos.cos(", 1), ("round(", 1), ("modf(", 1), ("lrint(", 1), ("ldexp(", 1), ("scalbln(", 1), ("pow(", 1), ("atan2(", 1),
-                      ("remquo(", 1), ("hypot(", 4)):
+                      ("remquo(", 1), ("hypot(", 4), ("nexttoward(", 3)):
         picked += sorted(set(x for x in all_samples if x.startswith(prefix)))[:n]
     if picked:
         ctx.samples[:] = picked
@@ -172,7 +189,16 @@ def run(ctx):
         ("" if quick else "; (5) ALL 2^32 ordered pairs of each of these 11 binary functions, same fast reference + MPFR scheme") +
         "; (6) special operands: all ordered pairs over {315-value alphabet + EVERY NaN bit pattern} for the 11 binary functions and every NaN pattern in each position of hypot(x,y,z); "
         "(7) a second build with the library's error handling compiled in (HALF_ERRHANDLING_FLAGS=1, HALF_ERRHANDLING_ERRNO=1) re-runs parts 1-3, the alphabet-1 pairs, the special operands and the 315-value hypot3 cube against the SAME oracle "
-        "(a signalling-NaN operand may give NaN there; counted as evaluations, not again as distinct). distinct_nontrivial = cases whose reference result is finite, non-zero and different from the argument(s) (for integer-valued results: different from the argument); every (function, argument) is visited once, so cases are distinct by construction; "
+        "(a signalling-NaN operand may give NaN there; counted as evaluations, not again as distinct); "
+        "(8) nexttoward(half from, long double to), the long double-direction form of nextafter (C99 7.12.11.4, F.9.8.4): all 2^16 from x a direction alphabet of long doubles = "
+        "354 absolute values (+-2^k for 54 exponents k covering the smallest denormal, smallest normal, epsilon and one binade beyond the largest finite value of binary16, binary32, binary64 and x87 extended; "
+        "65504, 65520, FLT_MAX, DBL_MAX, LDBL_MAX; each of these also one long double ulp up and down; both signs; +-0, +-inf, quiet and signalling NaNs of both signs) + up to 18 values relative to the value v of from "
+        "(v, -v, 2v, v/2, the neighbour of v on either side in long double, double and float precision, the two adjacent halves, the midpoints to them and those midpoints +-1 long double ulp; for v = +-0 the smallest denormals, "
+        "for v = +-inf the largest finite values of the three formats), and all 2^16 from x every value of the 1000-value half alphabet as an exactly converted direction" +
+        ("" if quick else " and ALL 2^32 (from, half-valued to) pairs") +
+        "; oracle = C's nexttoward on binary16 written from the definition (NaN if either is a NaN; to - i.e. from, for zeros the sign of to - if they compare equal; otherwise the binary16 value adjacent to from on the side of to, "
+        "however small the difference), comparison exact in long double, guarded by an exact MPFR comparison of the hand-decoded long double, by the nextafter reference for half-valued directions and by the direction glibc nexttowardf moves in; "
+        "re-run in the error-handling build (absolute+relative directions, 1000-value half alphabet) and the sanitizer build (absolute+relative directions). distinct_nontrivial = cases whose reference result is finite, non-zero and different from the argument(s) (for integer-valued results: different from the argument); every (function, argument) is visited once, so cases are distinct by construction; "
         "the alphabet sweeps overlap each other (and the full sweep) by design and are counted as evaluated.")
     ctx.assumptions += [
         "MPFR 4.2 / GMP are the reference; it is cross-checked on every MPFR-decided case against MPFR at 256 bits rounded by an independent integer routine, and where decisive against glibc long double; special values against glibc float. A reference disagreement is a harness error",
@@ -183,7 +209,10 @@ def run(ctx):
         "remquo: value judged exactly, quo judged for sign and the low 3 bits as C requires; not judged when C leaves quo unspecified (x infinite/NaN, y zero/NaN)",
         "lround/llround/lrint/llrint only on finite inputs (C leaves the rest unspecified); frexp exponent only for finite inputs",
         "three-argument hypot is decided over alphabets and derived families (stated in rule), not over all 2^48 triples; a triple that belongs to several families is evaluated in each but counted once (conservatively) in distinct_nontrivial",
-        "nexttoward, fma and sqrt are not part of this check (fma/sqrt: C08)",
+        "nexttoward(half, long double) is judged as the long double-direction overload of nextafter ('nextafter steps to the adjacent binary16 value'; it lies inside the anchored block 3597-3771 and C defines it as "
+        "'equivalent to nextafter except that the second parameter has type long double'); long double is the x87 80-bit extended format (LDBL_MANT_DIG 64, static_assert in the harness); directions are enumerated over the stated "
+        "alphabet, not over all 2^80 long doubles; pseudo-denormal/unnormal/pseudo-NaN encodings (not values of the type) are not passed",
+        "fma and sqrt are not part of this check (C08)",
         "g++ 12 -O2 on x86-64 (plus an ASan/UBSan-bounds -O1 build over all unary inputs and the alphabet-1 pairs)",
     ]
     if quick:
